@@ -164,3 +164,45 @@ func verifC11PersistentFailure() {
 	}
 	verifCover("c11/persistent-failure")
 }
+
+// (f) generations: open with n1 blocks and write them all, close, reopen SMALLER (n2 ≤ n1), close, reopen
+// with n1 blocks again: the blocks below n2 are retained through both reopenings, the re-grown blocks
+// read as zero (what was cut off must not come back).
+func verifC11Generations() {
+	n1 := 1 + verifChoose(2)
+	path := verifPath("disk.img")
+	d, err := NewFileDisk(path, uint64(n1))
+	verifAssume(err == nil)
+	model := make([][]byte, n1)
+	for i := 0; i < n1; i++ {
+		b := verifNondetBytes("w", int(BlockSize))
+		d.Write(uint64(i), b)
+		model[i] = verifClone(b)
+	}
+	d.Barrier()
+	d.Close()
+	n2 := verifChoose(n1 + 1)
+	d2, err2 := NewFileDisk(path, uint64(n2))
+	verifAssert("gen/shrink-open-ok", err2 == nil)
+	verifAssume(err2 == nil)
+	verifAssert("gen/shrink-size", d2.Size() == uint64(n2))
+	for i := 0; i < n2; i++ {
+		verifAssert("gen/shrink-retained", verifBytesEq(d2.Read(uint64(i)), model[i]))
+	}
+	d2.Close()
+	d3, err3 := NewFileDisk(path, uint64(n1))
+	verifAssert("gen/regrow-open-ok", err3 == nil)
+	verifAssume(err3 == nil)
+	verifAssert("gen/regrow-size", d3.Size() == uint64(n1))
+	for i := 0; i < n1; i++ {
+		want := model[i]
+		if i >= n2 {
+			want = make([]byte, BlockSize)
+		}
+		buf := verifNondetBytes("dirty", int(BlockSize))
+		d3.ReadTo(uint64(i), buf)
+		verifAssert("gen/regrow-block", verifBytesEq(buf, want))
+	}
+	d3.Close()
+	verifCover("c11/generations")
+}
